@@ -12,7 +12,7 @@ ID = "C02"
 RULE = ("seeded VRPTW instances (2..5 nodes; windows in quarters incl. inf and zero width; unreachable customers; costs of either sign) x "
         "formulation (arc with unsorted/sparse/complete grids; path with pools of valid and invalid candidate routes; sequence with V in 0..3, "
         "L in 3..5, strict/non-strict) x before/after the feasibility heuristic x mode x rho in {default, 0, 1/4, 3, -2}; brute force over all "
-        "2^n vectors for n <= 14 (both tiers), 4000 random vectors beyond; non-trivial = n >= 2 with at least one feasible and one infeasible vector "
+        "2^n vectors for n <= 14 (both tiers), 4000 (n <= 40) or 300 random vectors beyond; non-trivial = n >= 2 with at least one feasible and one infeasible vector "
         "examined; distinct = distinct case")
 ASSUMPTIONS = [
     "sequence-based: L >= 3 (for L = 2 the code itself drops a constant of the objective and says so)",
@@ -77,6 +77,7 @@ def run_case(case, drv, nmax=None):
     tier_n = nmax or 14
     o, outcome = FU.build_form(case)
     FU.check_fresh_twin(o, case["form"], res)
+    FU.check_query_mutate_query(case, res)
     res.features += [f"form:{form}", f"heur:{outcome if outcome in (None, 'ok') else 'raised'}", f"mode:{'feas' if case['feas'] else 'opt'}",
                      f"source:{'mirp-getter' if case.get('mirp') is not None else 'vrptw'}",
                      f"rho:{case['rho']}"]
@@ -170,7 +171,7 @@ def run_case(case, drv, nmax=None):
     rho_eff = rho if rho is not None else (Fraction(0) if case["feas"] else F(o.get_sufficient_penalty(False))) + 1
     import random
     rnd = random.Random(case.get("seed", 0))
-    X = None if n <= tier_n else [[rnd.randint(0, 1) for _ in range(n)] for _ in range(4000)]
+    X = None if n <= tier_n else [[rnd.randint(0, 1) for _ in range(n)] for _ in range(4000 if n <= 40 else 300)]
     B = VU.Brute(impl, X)
     lhs, dl = B.qubo(Q, k)
     # lhs/dl == obj/dO + rho * pen/dP   (cross-multiplied, all integers)
